@@ -894,11 +894,8 @@ theorem gr_slice_all (l : List Nat) (n : Nat) (h : l.length = n) : GenR.slice l 
 theorem gr_set_uint_eq (src tgt : List Nat) (n : Nat) (h1 : src.length = n) (h2 : tgt.length = n) : GenR.set_uint src n tgt = .ok src := by
   unfold GenR.set_uint
   simp only [gr_slice_all _ _ h1, gr_slice_all _ _ h2, bind, Except.bind]
-  have : GenR.ckLen tgt src = .ok () := by unfold GenR.ckLen; rw [if_pos (by omega)]
-  rw [this]
-  show Except.ok _ = _
-  unfold GenR.splice
-  rw [List.take_zero, Nat.zero_add, List.drop_eq_nil_of_le (by omega)]; simp
+  unfold GenR.copySlice GenR.splice
+  rw [if_pos (by omega), List.take_zero, Nat.zero_add, List.drop_eq_nil_of_le (by omega)]; simp
 
 /-- component `i`: `temp = (c_last mod q_i  or  c_last) + (q_i − half mod q_i)` (checked), lazy NTT, `c_i + (4 q_i − temp)` (checked), times the inverse -/
 def gr_darnComp (b qL : Modulus) (half : Nat) (inv : MulOperand) (NLi : List Nat → List Nat) (lastc ci : List Nat) : R (List Nat) :=
